@@ -109,13 +109,53 @@ func (x *Exec) execCall(fr *Frame, st *State, cc *ssa.CallCommon, site ssa.Value
 			}
 			return x.callFunction(fr, st, callee, args, bs, rt, pos, key)
 		}
-		return x.callFunction(fr, st, callee, args, nil, rt, pos, key)
+		// closures handed to the callee: what they maintain holds before the call (checked) and after it (assumed:
+		// the callee can reach the captured variables only by calling the closure, whose body is verified to
+		// preserve it)
+		handed := x.handedClosures(args)
+		x.closureInvariants(fr, st, handed, pos, true)
+		rv := x.callFunction(fr, st, callee, args, nil, rt, pos, key)
+		x.closureInvariants(fr, st, handed, pos, false)
+		return rv
 	}
 	// interface method
 	if fc := x.C.Funcs[key]; fc != nil {
 		return x.applyContract(fr, st, fc, nil, sig, key, args, rt, pos)
 	}
 	return x.unknownCall(fr, st, key, rt, pos)
+}
+
+// handedClosures: the closure values among the arguments whose contract declares "maintains" clauses.
+func (x *Exec) handedClosures(args []Value) []*FuncContract {
+	var out []*FuncContract
+	for _, a := range args {
+		if fv, ok := a.(VFunc); ok && len(fv.Bindings) > 0 {
+			if fc := x.C.Funcs[x.P.funcKey(fv.Fn)]; fc != nil && len(fc.Maintains) > 0 {
+				out = append(out, fc)
+			}
+		}
+	}
+	return out
+}
+
+// closureInvariants checks (before the call) or assumes (after it) the maintains clauses of the closures handed
+// to a callee; they are evaluated in the creator's frame, where the captured variables are its own locals.
+func (x *Exec) closureInvariants(fr *Frame, st *State, fcs []*FuncContract, pos token.Pos, check bool) {
+	for _, fc := range fcs {
+		env := &SpecEnv{x: x, st: st, old: fr.entrySt, vars: map[string]SVal{}, fr: fr}
+		if fr.fn.Pkg != nil {
+			env.pkg = fr.fn.Pkg.Pkg
+		}
+		for _, c := range fc.Maintains {
+			g := x.safeEvalBool(env, c, fc.Key)
+			if check {
+				x.check(st, "pre", c.Tags, pos, fc.Key+" maintains: "+c.Text, g)
+			} else {
+				x.assume(Implies(st.pc, g))
+				x.trusted["closure "+fc.Key+": what it maintains is assumed to hold again after a call that was handed the closure (the callee reaches the captured variables only through the closure, whose body is verified to preserve it)"] = true
+			}
+		}
+	}
 }
 
 // libraryKey: the contract key names a function or interface method of a package outside the verified scope.
@@ -322,9 +362,9 @@ func (x *Exec) addMod(env *SpecEnv, m *ModSet, e Expr) {
 			if p, ok := t.Underlying().(*types.Pointer); ok {
 				t = p.Elem()
 			}
-			m.whole["F|"+typeName(t)+"|"] = true
+			m.whole["F|"+typeName(t)] = true
 			if n, ok := t.(*types.Named); ok && n.Obj().Pkg() != nil {
-				m.whole["G|"+x.P.Short[n.Obj().Pkg().Path()]+"."+n.Obj().Name()+"."] = true
+				m.whole["G|"+x.P.Short[n.Obj().Pkg().Path()]+"."+n.Obj().Name()] = true
 			}
 			return
 		case "allmaps":
